@@ -193,6 +193,9 @@ def compare(snaps, model_out, skip_head=3):
         for k in keys:
             if snap.get(k) != m.get(k):
                 diffs.append((i, k, snap.get(k), m.get(k)))
+        # the offset handed to transfers at dispatch: compared when the tree under check has the attribute
+        if keys is COMPARE_KEYS and snap.get("xfer", "-") != "-" and m.get("xfer") is not None and snap["xfer"] != m["xfer"]:
+            diffs.append((i, "xfer", snap["xfer"], m["xfer"]))
         if snap["alive"] == "0":
             dead = True
         if diffs:
